@@ -89,8 +89,80 @@ def find_stores(block: list, targets: set[str], path: list):
                 yield from find_stores(h.body, targets, here)
 
 
+def glue_polarity(ctx, py: PyRepo):
+    """prove_tautology returns (True, proof of pat) or (False, proof of ~pat) on every path, given the contracts of the stages
+    (each stage returns a term with proofs of both implications; the resolution stage returns a proof of the clause
+    conjunction or of its negation, flagged) - the glue is type-checked like a lemma."""
+    from ..core import schema as S
+    from ..core.pyeval import PyEval
+    fn = py.method('Tautology', 'prove_tautology')
+    where = py.where('tautology', fn)
+    sc = S.SchemaChecker(py, ['Propositional', 'Tautology'])
+    SELF = ('param', 'self')
+    PAT = ('P', 'Symbol', ('str', '$pat'))
+    N = sc.N
+
+    def neg(t):
+        return N.apply('neg', [t])
+
+    def atom(n):
+        return ('P', 'Symbol', ('str', '$' + n))
+
+    def IMP(a, b):
+        return ('P', 'Implies', a, b)
+
+    X0 = neg(PAT)
+    T1, T2, T3, T4 = atom('T1'), atom('T2'), atom('T3'), atom('T4')
+    conj = ('call', ('attr', SELF, 'to_conj_form'), (('call', ('name', 'neg'), (('param', 'pat'),), ()),), ())
+    pn = ('call', ('attr', SELF, 'propag_neg'), (('item', conj, 0),), ())
+    cnf = ('call', ('attr', SELF, 'to_cnf'), (('item', pn, 0),), ())
+    cls = ('call', ('attr', SELF, 'to_clauses'), (('item', cnf, 0),), ())
+    res = ('call', ('attr', SELF, 'start_resolution_algorithm'), (('item', cls, 0),), ())
+    n = 0
+    for p in PyEval().paths(fn):
+        if p.end[0] != 'return' or p.end[1] == ('const', None):
+            continue
+        rv = p.end[1]
+        if not (rv[0] == 'tuple' and len(rv[1]) == 2 and rv[1][0][0] == 'const' and isinstance(rv[1][0][1], bool)):
+            ctx.ob('glue-polarity', f'path{n}', False, 'prove_tautology returns something other than (bool, proof)', where)
+            n += 1
+            continue
+        flag, pfv = rv[1][0][1], rv[1][1]
+        conds = {c: b for c, b in p.conds}
+        is_bot = conds.get(('call', ('name', 'isinstance'), (('item', conj, 0), ('name', 'CFBot')), ()))
+        negated = conds.get(('attr', ('item', conj, 0), 'negated'))
+        proved_true = conds.get(('item', res, 0))
+        ov = {}
+        if is_bot:
+            # "when the new term is Top or Bottom, the first proof is a proof of the input (Top) or of its negation (Bottom)"
+            ov[('item', conj, 1)] = ('pf', X0 if negated else neg(X0))
+        else:
+            ov[('item', conj, 1)] = ('pf', IMP(X0, T1))
+            ov[('item', conj, 2)] = ('pf', IMP(T1, X0))
+        ov[('item', pn, 1)], ov[('item', pn, 2)] = ('pf', IMP(T1, T2)), ('pf', IMP(T2, T1))
+        ov[('item', cnf, 1)], ov[('item', cnf, 2)] = ('pf', IMP(T2, T3)), ('pf', IMP(T3, T2))
+        ov[('item', cls, 1)], ov[('item', cls, 2)] = ('pf', IMP(T3, T4)), ('pf', IMP(T4, T3))
+        ov[('item', res, 1)] = ('pf', T4 if proved_true else neg(T4))
+        ty = S.Typer(sc, {'pat': ('pat', PAT)}, 'prove_tautology', 'Tautology')
+        ty.overrides = ov
+        tag = f'{"bot" if is_bot else "general"}/{"negated" if negated else ""}{"clauses-proved" if proved_true else ""}'.rstrip('/') + f'->{flag}'
+        try:
+            got = ty.pf(pfv)
+            want = PAT if flag else neg(PAT)
+            ctx.ob('glue-polarity', tag, got == want,
+                   f'prove_tautology returns ({flag}, proof of {S.tshow(got)}); with flag {flag} the proof must conclude '
+                   f'{"the pattern" if flag else "the negated pattern"} {S.tshow(want)}', where, facts={'proves': S.tshow(got)})
+        except S.Violation as v:
+            ctx.ob('glue-polarity', tag, False, f'the glue does not type-check under the stage contracts: {v}', where)
+        except S.Decline as d:
+            ctx.require(False, f'prove_tautology: glue outside the analysed subset: {d}')
+        n += 1
+
+
 def run(ctx):
     py = PyRepo.get()
+    glue_polarity(ctx, py)
+    ctx.floor('glue-polarity', 4)
     fn = py.method('Tautology', 'resolution_algorithm')
     where = py.where('tautology', fn)
     outers = [n for n in fn.body if isinstance(n, ast.For)]
@@ -137,7 +209,10 @@ def run(ctx):
     ctx.floor('pair-enumeration', 4)
     ctx.analysed['saturation loops'] = n_loops
     ctx.explanation = (
-        'One necessary clause of completeness of the resolution stage: the nested saturation loop forms every pair - both loops range over '
+        'Two structural clauses. (1) The glue of prove_tautology, type-checked like a lemma under the contracts of the stages (each stage '
+        'returns a term with proofs of both implications; the resolution stage a flagged proof of the clause conjunction or its negation): '
+        'on every path the returned proof concludes literally the pattern when the flag is True and its negation when False. (2) A '
+        'necessary clause of completeness of the resolution stage: the nested saturation loop forms every pair - both loops range over '
         'the same growing list, the inner loop stops at the diagonal, new resolvents rejoin the list, and no assignment inside the inner '
         'loop rebinds the outer loop element on a path that reads it again (def-use over the nested loop; a rebinding followed by break or '
         'after the last read is spared). The stage lemmas the prover composes are schema-checked under C10. Equivalence of the normal '
